@@ -53,10 +53,12 @@ try:
                         res["also_clauses"] = sorted({l.split("clause=")[-1] for l in v2})[:4]
                         break
         round2 = d[3:] in ("c", "d", "e", "f", "g", "h")
+        round6 = d[3:] in ("i", "j")
         round5 = d[3:] in ("g", "h") and pid in ("C07", "C08", "C11", "C13", "C14", "C18", "C19", "C20")
         meta = {"id": d, "breaks_property": pid, "property_title": props[pid]["title"],
                 "patch": os.path.basename(patch), "needs_to_manifest": "see notes.md",
-                "confirmed": ("tools/confirm_seed5.sh: scratch worktree of the repaired tree (HEAD 43d17b1)" if round5 else
+                "confirmed": ("tools/confirm_seed6.sh: scratch worktree of the repaired tree (HEAD 43d17b1)" if round6 else
+                              "tools/confirm_seed5.sh: scratch worktree of the repaired tree (HEAD 43d17b1)" if round5 else
                               "tools/confirm_seed2.sh: scratch worktree of the repaired tree" if round2 else
                               "tools/confirm_seed.sh: scratch worktree of the pinned commit") +
                              ": test-suite 150 passed with the change; demo exits 0 without and 1 with it",
